@@ -15,7 +15,19 @@ def shape(case):
     return "cyclic" if case["cyclic"] else ("dag" if n_e else "empty")
 
 
-@register("C06", "model_checking")
+CLAIM = dict(
+    category="model_checking", design_ref="DESIGN.md §4 C06",
+    text="TLC enumerates every digraph on 4 (quick) / 5 (thorough) targets as an initial state of CycleDetector.tla, "
+         "checks soundness and completeness of the algorithm-level DFS model on each, and every graph is rebuilt as a real "
+         "core.BuildGraph and run through the real cycle detector; the verdict is the property itself (cycle reported iff cyclic, "
+         "reported cycle is a closed walk of real edges), never equality with the model's cycle. Larger graphs come from tlc -simulate "
+         "growing a 9-node graph edge by edge.",
+    note="Exhaustive only within the bound; self-loops are model-only because the code refuses to declare them; "
+         "trusted: TLC, the JSON case decoding, the harness's graph construction through AddDependency/ResolveDependencies.",
+    technique="TLA+ spec CycleDetector.tla model-checked with TLC; TLC-enumerated cases replayed into the real cycle detector")
+
+
+@register("C06", claim=CLAIM)
 def run(ctx):
     ctx.rule = ("every digraph on N targets enumerated by TLC as one initial state of CycleDetector.tla "
                 "(invariants Complete/Sound on the algorithm model), each loop-free-of-self-edges graph replayed "
